@@ -241,7 +241,9 @@ def connect_case(scheme, popt, envset, exempt_via, reply=b"HTTP/1.1 200 Connecti
     if res != [want_host] or [c[1] for c in conns] != [want_port]:
         return (dict(sig, kind="wrong-route", via_proxy=res == ["proxy.example"]),
                 "%s: resolver/dial went to %r %r, expected %s:%d" % (label, res, conns, want_host, want_port))
-    ok200 = reply.split(b" ")[1:2] == [b"200"]
+    ok200 = reply.split(b" ")[1:2] == [b"200"] or reply.split(b" ")[1:2] == [b"200\r\n\r\n"]
+    if REPLY_CLASS.get(reply) in ("lenient", "ambiguous"):
+        ok200 = out is None  # a reader may take such a status field for 200 or refuse it: either way, consistently
     if not use_proxy:
         if out is not None:
             return (dict(sig, kind="direct-connect-failed"), "%s: %r" % (label, out))
@@ -285,6 +287,20 @@ def connect_case(scheme, popt, envset, exempt_via, reply=b"HTTP/1.1 200 Connecti
 REPLIES = [b"HTTP/1.1 200 Connection established\r\n\r\n", b"HTTP/1.0 200 OK\r\nVia: x\r\n\r\n", b"HTTP/1.1 201 Created\r\n\r\n", b"HTTP/1.1 204 No Content\r\n\r\n",
            b"HTTP/1.1 301 Moved\r\nLocation: ws://evil/\r\n\r\n", b"HTTP/1.1 403 Forbidden\r\n\r\n", b"HTTP/1.1 407 Proxy Authentication Required\r\n\r\n",
            b"HTTP/1.1 500 Oops\r\n\r\n", b"HTTP/1.1 502 Bad Gateway\r\n\r\n", b"garbage\r\n\r\n", b"HTTP/1.1\r\n\r\n", b""]
+
+
+# the status field of the proxy's reply in every spelling of the shared numeric-field alphabet: only a reading of 200 opens the tunnel
+REPLY_CLASS = {}
+for _sp, _cls in HS.numeric_spellings(200):
+    for _tail in (b" Connection established", b"", b" 200"):
+        _r = b"HTTP/1.1 " + _sp + _tail + b"\r\n\r\n"
+        if _cls != "exact":
+            REPLY_CLASS[_r] = _cls
+            REPLIES.append(_r)
+        elif _r not in REPLIES:
+            REPLIES.append(_r)
+for _r in (b"HTTP/1.1 403 200\r\n\r\n", b"HTTP/1.1 407 200 Connection established\r\n\r\n", b"HTTP/200 403 Forbidden\r\n\r\n"):
+    REPLIES.append(_r)
 
 
 PROXY_A, PROXY_B = "http://proxy-a.example:3128", "http://proxy-b.example:3129"
